@@ -12,8 +12,9 @@ use crate::rng::Rng;
 
 pub struct C18;
 
-const LAZY_DOC: &str = r#"{"s":"esc\n\"aped\" é 😀 tail","t":"plain"}"#;
-const LAZY_WANT: &str = "esc\n\"aped\" é 😀 tail";
+// (the decoded text is longer than the 24 bytes a FastStr keeps inline)
+const LAZY_DOC: &str = r#"{"s":"esc\n\"aped\" é 😀 tail, and on beyond what is kept inline","t":"plain"}"#;
+const LAZY_WANT: &str = "esc\n\"aped\" é 😀 tail, and on beyond what is kept inline";
 const OWNED_DOC: &str = r#"{"a":[1,"x\ty",{"k":null}],"b":"v\\w","c":{"d":[true]}}"#;
 
 const NUM_DOC: &str = "-12345.5e-3";
@@ -38,6 +39,7 @@ enum Act {
     LazyCloneAsStrDrop,
     LazyCloneOnly,
     LazyCloneFrom,
+    LazyReadThenIntoOwned,
     OwnedGetA,
     OwnedGetB,
     OwnedCloneGet,
@@ -68,6 +70,32 @@ fn act_lazy(a: Act, lv: &LazyValue) -> Result<(), String> {
             let c = lv.clone();
             drop(c);
             Ok(())
+        }
+        Act::LazyReadThenIntoOwned => {
+            // conversion by value of a lazy string whose decoding is (being) cached: of a clone
+            // read first, of a clone of the shared value, and of a clone made after the read
+            let c = lv.clone();
+            if c.as_str() != Some(LAZY_WANT) {
+                return Err(format!("clone.as_str = {:?}", c.as_str()));
+            }
+            let c2 = c.clone();
+            let ov = OwnedLazyValue::from(c);
+            let ov2 = OwnedLazyValue::from(lv.clone());
+            for (name, o) in [("read clone", &ov), ("unread clone", &ov2)] {
+                match o.as_str() {
+                    Some(s) if s == LAZY_WANT => {}
+                    other => return Err(format!("OwnedLazyValue::from({}).as_str = {:?}", name, other)),
+                }
+            }
+            if c2.as_str() != Some(LAZY_WANT) {
+                return Err(format!("the clone made after the read, once its origin was converted: as_str = {:?}", c2.as_str()));
+            }
+            let ov3 = OwnedLazyValue::from(c2);
+            drop(ov);
+            match ov3.as_str() {
+                Some(s) if s == LAZY_WANT => Ok(()),
+                other => Err(format!("OwnedLazyValue::from(clone made after the read).as_str = {:?}", other)),
+            }
         }
         Act::LazyCloneFrom => {
             // a value that was already read is overwritten in place with the shared one (which
@@ -185,6 +213,7 @@ const SCENARIOS: &[(&str, bool, &[Act])] = &[
     ("lazy:3-readers-and-clone", true, &[Act::LazyAsStr, Act::LazyCloneAsStrDrop, Act::LazyAsStr]),
     ("lazy:reader+clone-only", true, &[Act::LazyAsStr, Act::LazyCloneOnly]),
     ("lazy:reader+clone_from", true, &[Act::LazyAsStr, Act::LazyCloneFrom]),
+    ("lazy:reader+into-owned", true, &[Act::LazyAsStr, Act::LazyReadThenIntoOwned]),
     ("owned:2-getters", false, &[Act::OwnedGetA, Act::OwnedGetB]),
     ("owned:getter+clone", false, &[Act::OwnedGetA, Act::OwnedCloneGet]),
     ("owned:3-mixed", false, &[Act::OwnedGetB, Act::OwnedCloneGet, Act::OwnedAsObject]),
